@@ -487,10 +487,10 @@ def sc_io_missing(p, v, probes):
         if p['name'].endswith('.foo'):
             shutil.copy(case_path('kundur/kundur_full.xlsx'), path)
         probes['cli_checked'] = 1
-        code, exc = call(andes.run, path, cli=True, no_output=True, default_config=True, verbose=50)
+        code, exc = call(andes.run, path, cli=True, no_output=True, default_config=True, verbose=50, autogen_stale=False)
         if exc is None and code == 0:
             v.append(V('io_reported', 'andes.run(%r, cli=True) returned exit code 0' % p['name'], cls=p['cls'], what='exit_zero'))
-        ss, exc = call(andes.load, path, no_output=True, default_config=True)
+        ss, exc = call(andes.load, path, no_output=True, default_config=True, autogen_stale=False)
         if exc is None and ss is not None:
             v.append(V('io_reported', 'andes.load(%r) returned a System' % p['name'], cls=p['cls'], what='loaded'))
         probes['failure_constructed'] = 1
@@ -518,7 +518,7 @@ def sc_io_truncated(p, v, probes):
         probes['io_corrupted'] = 1
         probes['cli_checked'] = 1
         with np.errstate(all='ignore'):
-            code, exc = call(andes.run, path, cli=True, no_output=True, default_config=True, verbose=50, **kw)
+            code, exc = call(andes.run, path, cli=True, no_output=True, default_config=True, verbose=50, autogen_stale=False, **kw)
         fmt = p['file'].split('.')[-1]
         if exc is not None:
             probes['failure_constructed'] = 1     # would terminate the CLI with a traceback and status 1
@@ -526,8 +526,8 @@ def sc_io_truncated(p, v, probes):
             probes['failure_constructed'] = 1
         else:
             # exit status 0 on a truncated file: accepted only if the truncated file is still the complete data
-            ref = andes.load(src, no_output=True, default_config=True, setup=False)
-            got = andes.load(path, no_output=True, default_config=True, setup=False)
+            ref = andes.load(src, no_output=True, default_config=True, setup=False, autogen_stale=False)
+            got = andes.load(path, no_output=True, default_config=True, setup=False, autogen_stale=False)
             same = got is not None and _same_data(ref, got)
             if not same:
                 v.append(V('io_reported', '%s truncated to %d of %d bytes: andes.run(cli=True) returned 0 on incomplete data' %
